@@ -48,7 +48,7 @@ def run_pre(kind: str, is_async: bool, mode: str, n0: int, d1: int, n1: int, sur
     rt = RT(tv=tv, body=body, error_mode=mode)
     built.rt = rt
 
-    kinds_exc = (Tag,) if mode == "factory" else (AssertionError,)
+    kinds_exc = (Tag,) if mode in ("factory", "falsy_factory") else (AssertionError,)
     try:
         res = fresh(invoke, built, x)
         raised = None
@@ -110,8 +110,10 @@ def harnesses(tier: str) -> List[H]:
             if is_async and kind not in ASYNC_KINDS:
                 continue
             modes = ["factory"] if tier == "quick" and (is_async or kind not in ("func", "method")) else ["factory", "default"]
+            if tier == "quick" and kind in ("func", "method"):
+                modes = modes + ["falsy_factory"]
             if tier == "thorough":
-                modes = ["factory", "default", "class", "instance"]
+                modes = ["factory", "default", "class", "instance", "falsy_factory"]
             for mode in modes:
                 name = "pre_{}{}_{}".format(kind, "_async" if is_async else "", mode)
                 n0hi = 3 if tier == "quick" else 4
